@@ -20,6 +20,7 @@ from vf import core
 from vf.refs import bimg_ref
 
 ID = "C14"
+DECOY_CWD = True  # the worker runs in a directory that holds other bytes under every input file name (vf/worker.py)
 LEVEL = "exploration"
 TECHNIQUE = (
     "runtime monitoring: independent placement model (interval arithmetic on the exported bytes, raw database "
